@@ -11,6 +11,17 @@ CLAIMED = {
   ref="4-C01"),
 }
 
+CLAIMED["C03"] = dict(
+  text="Bounded symbolic verification (SMT over go/ssa). After every history (set-up prefix + K arbitrary arrivals through Drop-or-Map as in rtpDownTrack.Write) a NACK for ANY 16-bit outgoing number is answered by packetmap.Map.Reverse with exactly the source packet that was forwarded under that number (per the reference formula and per the recorded first copies), or refused; never a withheld packet; re-mapping the returned packet (what gotNACK->Write does) yields the NACKed number again. Right level: inversion bugs live at interval boundaries and wrap points which the solver covers for all values.",
+  note="Bounds: prefix in a fixed family + K arrivals (quick 2, thorough 3), 8192 window. Outside: the cache lookup and RewritePacket on the resend path are covered by C05/C02 separately, not composed here; gotNACK's closure itself (pion/RTCP plumbing) is not encoded; ring wrap of 128 intervals.",
+  technique="bounded model checking by SMT-based symbolic execution of go/ssa (z3/cvc5), counterexamples replayed natively",
+  ref="4-C03")
+CLAIMED["C05"] = dict(
+  text="Bounded symbolic verification (SMT over go/ssa). Every sequence of K Store/Resize/ResizeCond operations on packetcache.New(c0) followed by lookups: the most recent packets (up to the capacity left by the resizes) are retrievable; Get/GetAt for ANY seqno/index return nothing or byte-exactly one stored packet of that seqno (length and bytes), write nothing beyond it; Store leaves the caller's buffer alone; plus a lockset obligation: every Cache field / entries-array access inside the methods happens with cache.mu held, which makes each method atomic and is what the concurrent-readers clause rests on.",
+  note="Bounds: K ops (quick 3, thorough 4), capacities 1..Cmax (3/4), packet lengths 1..Lmax (2) with symbolic bytes, seqnos/timestamps symbolic. Outside: capacities above Cmax, lengths above Lmax (length enters only through copy and the 15-bit length field), real preemption (the concurrency clause is decided through mutex discipline, assuming sync.Mutex works).",
+  technique="bounded model checking by SMT-based symbolic execution of go/ssa + lockset obligation on symbolic paths",
+  ref="4-C05")
+
 NOT_APPLICABLE = {
 }
 
